@@ -74,15 +74,22 @@ def _child():
     os._exit(0)
 
 
-def corroborate(cases, stall=90.0):
+def corroborate(cases, stall=90.0, max_hangs=2):
     """Run ``cases`` on real threads; returns one observation per case (see module docstring).
     ``stall``: seconds without any progress line after which the child is killed and the case in
-    progress is reported as 'hung'.  A child that stops after a leak or a hang is restarted for
+    progress is reported as 'hung'; after ``max_hangs`` hangs the remaining cases are not run.  A child that stops after a leak or a hang is restarted for
     the remaining cases."""
     observations = [None] * len(cases)
     todo = list(range(len(cases)))
     verif = os.path.dirname(os.path.dirname(os.path.abspath(__file__)))
+    hangs = 0
     while todo:
+        if hangs >= max_hangs:
+            # every hang costs ``stall`` seconds: two are enough to know that something is wrong
+            for i in todo:
+                observations[i] = {'how': 'not-run', 'value': f'skipped after {hangs} hangs',
+                                   'statuses': {}, 'executions': {}, 'alive': []}
+            break
         env = dict(os.environ)
         proc = subprocess.Popen([sys.executable, '-m', 'vlib.realrun'], cwd=verif, env=env,
                                 stdin=subprocess.PIPE, stdout=subprocess.PIPE,
@@ -125,6 +132,7 @@ def corroborate(cases, stall=90.0):
             observations[current] = {'how': 'hung', 'value': f'no progress for {stall:.0f} s',
                                      'statuses': {}, 'executions': {}, 'alive': []}
             done += 1
+            hangs += 1
         remaining = [i for i in todo if observations[i] is None]
         if not done and remaining:
             # the child did not even start (import failure ...): do not loop for ever
